@@ -266,19 +266,22 @@ RoomStep(s, e, r) ==
                                    [i \in DOMAIN Affs |-> "perm:" \o r \o ":" \o Affs[i]])
       [] OTHER              -> Same(s)
 
-\* everything the step makes the client do: per room, plus the parts that belong to no room
-RECURSIVE SentAll(_, _, _)
-SentAll(f, e, rs) == IF rs = <<>> THEN <<>> ELSE RoomStep(f[Head(rs)], e, Head(rs)).sent \o SentAll(f, e, Tail(rs))
+\* one step of all rooms: RoomStep is evaluated once per room and event
+StepAll(f, e) == [r \in Rooms |-> RoomStep(f[r], e, r)]
+RECURSIVE SentAll(_, _)
+SentAll(rs, seq) == IF seq = <<>> THEN <<>> ELSE rs[Head(seq)].sent \o SentAll(rs, Tail(seq))
 
 ClientSent(e) == IF e.a = "Connect" /\ e.k # "resumed" THEN <<"pres::av">> ELSE <<>>   \* QXmppClient::_q_streamConnected
 \* QXmppMucManager::_q_messageReceived: invitations to rooms we are not in
 MgrSig(f, e) == IF e.a = "Invite" /\ ~(e.j \in Rooms /\ Joined(f[e.j])) THEN <<"invite:" \o e.j>> ELSE <<>>
 
-StepRooms(f, e) == [r \in Rooms |-> RoomStep(f[r], e, r).st]
-StepOut(f, e) == [ev |-> e, sig |-> [r \in Rooms |-> RoomStep(f[r], e, r).sig], msig |-> MgrSig(f, e),
-                  sent |-> ClientSent(e) \o SentAll(f, e, RoomSeq)]
+\* everything the step makes the client do: the rooms afterwards, their signals (per room), the
+\* signals of the manager, what is written (client first, then the rooms in the order they were added)
+MkOut(rs, f, e) == [ev |-> e, st |-> [r \in Rooms |-> rs[r].st], sig |-> [r \in Rooms |-> rs[r].sig],
+                    msig |-> MgrSig(f, e), sent |-> ClientSent(e) \o SentAll(rs, RoomSeq)]
+StepOut(f, e) == MkOut(StepAll(f, e), f, e)
 
-Out0 == [ev |-> [a |-> "Init"], sig |-> [r \in Rooms |-> <<>>], msig |-> <<>>, sent |-> <<>>]
+Out0 == [ev |-> [a |-> "Init"], st |-> [r \in Rooms |-> R0], sig |-> [r \in Rooms |-> <<>>], msig |-> <<>>, sent |-> <<>>]
 
 Init ==
     /\ conn = TRUE /\ resumable = FALSE
@@ -287,8 +290,8 @@ Init ==
     /\ hist = <<>>
 
 Apply(e) ==
-    /\ rm' = StepRooms(rm, e)
     /\ out' = StepOut(rm, e)
+    /\ rm' = out'.st
     /\ conn' = IF e.a = "Disconnect" THEN FALSE ELSE IF e.a = "Connect" THEN TRUE ELSE conn
     /\ resumable' = IF e.a = "Disconnect" THEN e.k = "resumable" ELSE IF e.a = "Connect" THEN FALSE ELSE resumable
     /\ hist' = Append(hist, e)
